@@ -332,6 +332,12 @@ where
             Filter::BorrowedDataSets(_, FilterMode::All, _) => {
                 unreachable!("not handled by this iterator but by FilterAllIter")
             }
+            Filter::AnnotationDataSet(set_handle, _) => dataset.handle() == *set_handle,
+            Filter::AnnotationData(set_handle, _, _) => dataset.handle() == *set_handle,
+            Filter::DataSets(handles, FilterMode::Any, _) => handles.contains(&dataset.fullhandle()),
+            Filter::BorrowedDataSets(handles, FilterMode::Any, _) => {
+                handles.contains(&dataset.fullhandle())
+            }
             Filter::AnnotationSubStore(substore) => {
                 if let Some(substore) = substore {
                     dataset.substores().any(|x| x.handle() == *substore)
